@@ -34,7 +34,8 @@ func init() {
 func (fswriteStream) Name() string          { return "fswrite" }
 func (fswriteStream) TrivialTags() []string { return nil }
 
-const fswriteRoot = "/tmp/cdi-verif-fswrite"
+// per-process scratch root: concurrent runs of the harness must not share a tree
+var fswriteRoot = scratchRoot("/tmp/cdi-verif-fswrite")
 
 func variantSpec(v string) *specs.Spec {
 	s := &specs.Spec{Version: specs.CurrentVersion, Kind: "vendor.com/class"}
